@@ -129,6 +129,10 @@ pub struct WireCase {
     pub bulk_digest: u16,
     pub deltas: Vec<NodeDeltaSpec>,
     pub blocking: Blocking,
+    /// The second digest entry (and the second delta member) reuse the node id and generation of
+    /// the first one with a different address: distinct ids that only differ by address.
+    #[serde(default)]
+    pub twin_ids: bool,
 }
 
 pub fn model_of(case: &WireCase) -> WMsg {
@@ -147,6 +151,14 @@ pub fn model_of(case: &WireCase) -> WMsg {
         }
         digest.push(WNodeDigest { id, heartbeat: i as u64 * 7, last_gc: i as u64 / 2, max_version: i as u64 });
     }
+    if case.twin_ids && digest.len() >= 2 {
+        let first = digest[0].id.clone();
+        digest[1].id.node_id = first.node_id;
+        digest[1].id.generation = first.generation;
+        if digest[1].id.ip == first.ip && digest[1].id.port == first.port {
+            digest[1].id.port = first.port.wrapping_add(1);
+        }
+    }
     let mut deltas: Vec<WNodeDelta> = Vec::new();
     for d in &case.deltas {
         uniq += 1;
@@ -161,6 +173,14 @@ pub fn model_of(case: &WireCase) -> WMsg {
         }
         let max_version = if kvs.is_empty() { d.set_max.map(|m| u64_class(m.0, m.1)).unwrap_or(0) } else { version };
         deltas.push(WNodeDelta { id: d.id.expand(uniq), last_gc: u64_class(d.gc.0, d.gc.1), from_version: u64_class(d.from.0, d.from.1), kvs, max_version });
+    }
+    if case.twin_ids && deltas.len() >= 2 {
+        let first = deltas[0].id.clone();
+        deltas[1].id.node_id = first.node_id;
+        deltas[1].id.generation = first.generation;
+        if deltas[1].id.ip == first.ip && deltas[1].id.port == first.port {
+            deltas[1].id.port = first.port.wrapping_add(1);
+        }
     }
     match case.kind % 4 {
         0 => WMsg::Syn { cluster_id: case.cluster_id.expand(), digest },
@@ -398,14 +418,16 @@ pub fn wire_case_strategy() -> impl Strategy<Value = WireCase> {
         prop_oneof![8 => Just(0u16), 2 => 1u16..200, 1 => 200u16..2000],
         proptest::collection::vec((id_spec(), u64_spec(), u64_spec(), proptest::collection::vec(kv_spec(), 0..8), proptest::option::of(u64_spec())), 0..5),
         blocking_strategy(),
+        prop_oneof![4 => Just(false), 1 => Just(true)],
     )
-        .prop_map(|(kind, cluster_id, digest, bulk_digest, deltas, blocking)| WireCase {
+        .prop_map(|(kind, cluster_id, digest, bulk_digest, deltas, blocking, twin_ids)| WireCase {
             kind,
             cluster_id,
             digest,
             bulk_digest,
             deltas: deltas.into_iter().map(|(id, gc, from, kvs, set_max)| NodeDeltaSpec { id, gc, from, kvs, set_max }).collect(),
             blocking,
+            twin_ids,
         })
 }
 
